@@ -94,4 +94,34 @@ CHECKS["C18"] = {
             "valid entry (so n steps cost n(+1)), the value returned alongside the gradient is reused, momentum refresh keeps position-dependent entries.",
     "note": "tree transitions: bound n+2 from a fresh start state is stated, not proved here; metric stub; small-model argument as in C09.",
 }
+CHECKS["C13"] = {
+    "engine": "pyvc",
+    "technique": "contract-based deductive verification: loop invariant / generic-iteration postconditions on the real _sample_chain, sequential chain loop and sample_chains stage loop (ghost row logs, callee contracts), z3",
+    "design_ref": "DESIGN.md section 7 C13",
+    "text": "_sample_chain is executed symbolically for a generic iteration from an arbitrary earlier state (any n_iter, any offset): every transition is applied once in order with state "
+            "threading, statistics and traces are written exactly once at row sample_index+offset with this iteration's values computed from the post-iteration state, the returned state "
+            "is the last one; the sequential loop and the stage loop of sample_chains are proved to pass per-chain arrays, offsets equal to the recorded iterations so far, array lengths "
+            "equal to n_trace_iter, over the option space (n_process incl. None, trace_warm_up, trace function sets, adapters, memmap).",
+    "note": "arrays are ghost row logs (numpy assignment / allocation / open_memmap trusted, A12); memmap<->path pytree conversion is not modelled (stubs); transitions/adapters/trace "
+            "functions are contract stubs; multi-process branch only up to the choice of chain function (A14).",
+}
+CHECKS["C14"] = {
+    "engine": "pyvc + frames",
+    "technique": "contract-based verification with ghost generator positions: per-chain stream contract, threading invariant across stages for both chain functions (multiprocessing under the trusted contract A14), chain-order postcondition for all pickup orders",
+    "design_ref": "DESIGN.md section 7 C14",
+    "text": "Per-chain generators are proved to be a function of (base state, chain index); the same generator objects are threaded through all stages sequentially; for the parallel chain "
+            "function the real parent and worker code is interpreted over stub queues/pool (items pickled on put, every assignment of 3 chains to workers enumerated): each chain sampled "
+            "once with its own arguments, outputs in chain order, and the worker-side generator advance flows back to the parent; no unseeded randomness in the library.",
+    "note": "A14 (multiprocessing semantics) and A10 (numpy generators) trusted; 'frame disjointness + A14 => schedule independence' is an informal inference; real OS scheduling is not explored; "
+            "known finding D19 (base-generator draws depend on the chain count).",
+}
+CHECKS["C15"] = {
+    "engine": "pyvc",
+    "technique": "contract-based verification with exceptional postconditions: KeyboardInterrupt in the raises-set of every call inside the sampling loop of the real _sample_chain (one path per call site, generic iteration), plus the sequential and stage loops",
+    "design_ref": "DESIGN.md section 7 C15",
+    "text": "For an interrupt at any call site of any iteration: _sample_chain returns normally with the interrupt as output, the returned state is a complete chain state, rows written "
+            "belong to the current row only, memmaps are flushed and the iterator context closed; the sequential loop starts no further chain; sample_chains returns immediately and "
+            "normally without starting later stages or finalizing adapters on partial chain lists.",
+    "note": "worker/parent interrupt propagation through multiprocessing queues under A14 only; a second interrupt during clean-up is out of scope.",
+}
 NOT_APPLICABLE = {}
